@@ -1,7 +1,7 @@
 //! The state of one case: sites (real instances), rooms, groups, keys; and the room-definition ops.
 //!
 //! Op lines (shared with the Lean driver `dmodel_room`):
-//!   case id=<n> keys=<K> dmax=<D>
+//!   case id=<n> keys=<K> dmax=<D> [uids=desc]
 //!   mut s=<site> d=<date> r=<room> [new=1] [adm=<ulist>] [grp=<g>,<g>] [g<g>.u=<ulist>] [g<g>.ua=<ulist>] [g<g>.r=<rlist>]
 //!        ulist: `k+`|`k-`|`k` comma separated (`k` = enabled omitted); rlist: `e:s:a` comma separated
 //!   obs s=<site> r=<room>
